@@ -382,6 +382,7 @@ def run_dc(case, o: Oracle) -> None:
         cfg["rotk"] = os.path.basename(rotk_file)
     if kind == "ele" and flag_ca:
         cfg["flag_ca"] = True
+    cfg = core.reorder(cfg, int(core.case_digest(case)[:8], 16))  # mapping keys in an order picked with the case
     want_class = {"rsa": "DebugCredentialCertificateRsa", "ecc": "DebugCredentialCertificateEcc", "ele": "DebugCredentialEdgeLockEnclave"}[kind]
 
     # ---- the nxpdebugmbox `dat dc export` call sequence
